@@ -144,6 +144,118 @@ fn data_of(n: usize, salt: u8) -> Vec<u8> {
     (0..n).map(|i| (i as u8).wrapping_mul(29).wrapping_add(salt) | 1).collect()
 }
 
+/// Xen build: the SAME adapters with buffers that live in an on-demand grant region (every access
+/// maps a temporary window through the emulated device; the pointer handed to read(2) / write(2)
+/// is only valid while the guard of that window lives). Results, bytes landed in the guest and
+/// bytes received by the stream are compared with std on an ordinary buffer.
+#[cfg(all(feature = "xen", not(miri)))]
+fn xen_ondemand_buffers() {
+    use crate::models::xenemu::Emu;
+    use vm_memory::{GuestAddress, GuestMemory, GuestMemoryMmap, GuestRegionMmap, MmapRange, MmapRegion};
+    const PAGE: u64 = 4096;
+    let emu = Emu::install(8 << 20);
+    let gb = 24 * PAGE | (1 << 63);
+    let region = MmapRegion::<()>::from_range(MmapRange::new(3 * 4096, Some(emu.file_offset(0)), GuestAddress(gb), 0x2 | 0x8, 3)).expect("xen region");
+    let gm = GuestMemoryMmap::from_regions(vec![GuestRegionMmap::new(region, GuestAddress(gb)).expect("guest region")]).unwrap();
+    let mut n = 0u64;
+    for (off, len) in [(0usize, 1usize), (5, 8), (4090, 12), (100, 5000), (8192, 4096), (4096 * 3 - 1, 1)] {
+        let data = data_of(len, 91);
+        // ---- sources: File, UnixStream, OwnedFd -> guest
+        for kind in ["File", "UnixStream", "OwnedFd(pipe)"] {
+            for exact in [false, true] {
+                emu.write_guest(gb + off as u64, &vec![0xEEu8; len]);
+                let vs = gm.get_slice(GuestAddress(gb + off as u64), len).expect("slice");
+                let mut vs2 = vs.clone();
+                let (r1, r2, twin_buf) = match kind {
+                    "File" => {
+                        let (mut f1, mut f2) = (temp_file(0), temp_file(0));
+                        for f in [&mut f1, &mut f2] {
+                            f.write_all(&data).unwrap();
+                            f.seek(SeekFrom::Start(0)).unwrap();
+                        }
+                        let mut ob = vec![0xEEu8; len];
+                        let r1 = if exact { rv(f1.read_exact_volatile(&mut vs2).map(|()| len)) } else { rv(f1.read_volatile(&mut vs2)) };
+                        let r2 = if exact { rs(f2.read_exact(&mut ob).map(|()| len)) } else { rs(f2.read(&mut ob)) };
+                        (r1, r2, ob)
+                    }
+                    "UnixStream" => {
+                        let (mut a1, mut b1) = UnixStream::pair().unwrap();
+                        let (mut a2, mut b2) = UnixStream::pair().unwrap();
+                        b1.write_all(&data).unwrap();
+                        b2.write_all(&data).unwrap();
+                        let mut ob = vec![0xEEu8; len];
+                        let r1 = if exact { rv(a1.read_exact_volatile(&mut vs2).map(|()| len)) } else { rv(a1.read_volatile(&mut vs2)) };
+                        let r2 = if exact { rs(a2.read_exact(&mut ob).map(|()| len)) } else { rs(a2.read(&mut ob)) };
+                        (r1, r2, ob)
+                    }
+                    _ => {
+                        let (rd1, wr1) = pipe_pair();
+                        let (rd2, wr2) = pipe_pair();
+                        // (pipes hold 64 KiB: the whole payload fits)
+                        std::fs::File::from(wr1).write_all(&data).unwrap();
+                        std::fs::File::from(wr2).write_all(&data).unwrap();
+                        let mut fd1: OwnedFd = rd1;
+                        let mut f2 = std::fs::File::from(rd2);
+                        let mut ob = vec![0xEEu8; len];
+                        let r1 = if exact { rv(fd1.read_exact_volatile(&mut vs2).map(|()| len)) } else { rv(fd1.read_volatile(&mut vs2)) };
+                        let r2 = if exact { rs(f2.read_exact(&mut ob).map(|()| len)) } else { rs(f2.read(&mut ob)) };
+                        (r1, r2, ob)
+                    }
+                };
+                let landed = emu.read_guest(gb + off as u64, len);
+                if r1 != r2 || landed != twin_buf {
+                    v(&format!("{}(buffer in an on-demand Xen region)", kind), if exact { "read_exact/result-or-bytes-differ" } else { "read/result-or-bytes-differ" }, jobj! {"volatile" => J::dbg(&r1), "std" => J::dbg(&r2), "offset_in_region" => off, "len" => len, "bytes_equal" => landed == twin_buf});
+                }
+                if !emu.live().is_empty() {
+                    v(&format!("{}(buffer in an on-demand Xen region)", kind), "window-still-mapped-after-the-call", J::Null);
+                }
+                n += 1;
+            }
+        }
+        // ---- sinks: guest -> File, UnixStream
+        emu.write_guest(gb + off as u64, &data);
+        for kind in ["File", "UnixStream"] {
+            for all in [false, true] {
+                let vs = gm.get_slice(GuestAddress(gb + off as u64), len).expect("slice");
+                let (r1, r2, got1, got2) = match kind {
+                    "File" => {
+                        let (mut f1, mut f2) = (temp_file(0), temp_file(0));
+                        let r1 = if all { rv(f1.write_all_volatile(&vs).map(|()| len)) } else { rv(f1.write_volatile(&vs)) };
+                        let r2 = if all { rs(f2.write_all(&data).map(|()| len)) } else { rs(f2.write(&data)) };
+                        let (mut g1, mut g2) = (vec![], vec![]);
+                        f1.seek(SeekFrom::Start(0)).unwrap();
+                        f2.seek(SeekFrom::Start(0)).unwrap();
+                        f1.read_to_end(&mut g1).unwrap();
+                        f2.read_to_end(&mut g2).unwrap();
+                        (r1, r2, g1, g2)
+                    }
+                    _ => {
+                        let (mut a1, mut b1) = UnixStream::pair().unwrap();
+                        let (mut a2, mut b2) = UnixStream::pair().unwrap();
+                        let r1 = if all { rv(a1.write_all_volatile(&vs).map(|()| len)) } else { rv(a1.write_volatile(&vs)) };
+                        let r2 = if all { rs(a2.write_all(&data).map(|()| len)) } else { rs(a2.write(&data)) };
+                        drop(a1);
+                        drop(a2);
+                        let (mut g1, mut g2) = (vec![], vec![]);
+                        b1.read_to_end(&mut g1).unwrap();
+                        b2.read_to_end(&mut g2).unwrap();
+                        (r1, r2, g1, g2)
+                    }
+                };
+                if r1 != r2 || got1 != got2 {
+                    v(&format!("{}(buffer in an on-demand Xen region)", kind), if all { "write_all/result-or-bytes-differ" } else { "write/result-or-bytes-differ" }, jobj! {"volatile" => J::dbg(&r1), "std" => J::dbg(&r2), "offset_in_region" => off, "len" => len, "received_equal" => got1 == got2});
+                }
+                n += 1;
+            }
+        }
+        out::key(&format!("xen-ondemand-buffer|off{}|len{}", if off % 4096 == 0 { "page" } else { "odd" }, thr(len)), true);
+    }
+    out::count("xen_ondemand_buffer_calls", n as i128);
+    out::eval(n);
+    drop(gm);
+    drop(emu);
+}
+
 // -------------------------------------------------------------------------------------------
 // Adapters the library MAY provide. The statement covers "every stream adapter the library
 // provides"; which std types implement ReadVolatile / WriteVolatile can change with the library
@@ -1149,6 +1261,12 @@ pub fn run(args: &Args) {
     }
     if si == 0 && !cfg!(miri) {
         stdout_adapter(args.seed());
+    }
+    #[cfg(all(feature = "xen", not(miri)))]
+    if si == 0 && crate::common::interpose::available() {
+        if let Err(p) = guarded(xen_ondemand_buffers) {
+            out::viol(&format!("C13/panic/xen-ondemand-buffers/{}", panic_sig(&p)), J::s(p));
+        }
     }
     for case in args.cases(500) {
         let mut r = Rng::new(args.seed(), "c13", case);
